@@ -146,6 +146,13 @@ def validate(root, final=False):
     return problems
 
 
+# whole books, cleaned in one go as the ODF writer does (TreeCleaner(book).clean_all()): articles that end up empty next to
+# articles that need repair; judged against the same articles cleaned in one-article books
+BOOK_ARTS = {"empty": "", "p": "para one\n\npara two\n", "badlist": "<ul><li>a</li>text<li>b</li></ul>\n", "br-only": "<br/>\n",
+             "noprint-only": '<div class="noprint">x</div>\n', "nested-table": "{|\n|\n{|\n| a || b\n|}\n|}\n"}
+BOOK_LAYOUTS = ["flat", "chapter-each", "chapter-first"]
+
+
 class CleanExplore(InputProp):
     chunk = 300
     soft_timeout = 30.0
@@ -182,6 +189,7 @@ class CleanExplore(InputProp):
         hsub = clean_names[::10] if tier == "quick" else clean_names[::3]
         fams.append(Product(clean_names, hsub, name="history-ab"))
         fams.append(Product(hsub, clean_names, name="history-ba"))
+        fams.append(Product(BOOK_LAYOUTS, Seqs(sorted(BOOK_ARTS), 3, minlen=1), name="book"))
         fams.append(Seqs(clean_names, 2, minlen=2, name="clean2"))
         fams.append(Product(clean_names, [c[0] for c in W.CTX], name="clean-ctx"))
         if tier != "quick":
@@ -215,12 +223,64 @@ class CleanExplore(InputProp):
         if fam == "grammar":
             from mc.gen import docgrammar
             return docgrammar.render(c)
+        if fam == "book":
+            return "\n--- next article ---\n".join(BOOK_ARTS[a] for a in c[1])
         raise ValueError(fam)
 
     def describe(self, case):
         return {"family": case[0], "case": case[1], "text": self.build(case)[:200]}
 
+    def make_book(self, layout, names):
+        from mwlib.parser.nodes import Book, Chapter
+        book = Book()
+        holder = book
+        for i, a in enumerate(names):
+            if layout == "chapter-each" or (layout == "chapter-first" and i == 0):
+                holder = Chapter("Chapter %d" % i)
+                book.append_child(holder)
+            art = self.parse(title="Page %d" % i, raw=BOOK_ARTS[a], wikidb=self.db, lang="en")
+            holder.append_child(art)
+        self.advtree.build_advanced_tree(book)
+        return book
+
+    def run_book(self, case):
+        layout, names = case[1]
+        v5, v6 = [], []
+        shape = "%s:%s" % (layout, "+".join(names))
+        with contextlib.redirect_stdout(io.StringIO()), contextlib.redirect_stderr(io.StringIO()):
+            try:
+                book = self.make_book(layout, names)
+            except Exception as e:
+                v5.append({"sig": "build_advanced_tree:" + exc_signature(e), "msg": "building the book %s raised %r" % (shape, e)})
+                return self.result("book-failed", v5, v6, {})
+            tc = self.treecleaner.TreeCleaner(book, save_reports=True)
+            try:
+                tc.clean_all()
+            except Exception as e:
+                v6.append({"sig": "clean_all:" + exc_signature(e), "msg": "clean_all on the book %s raised %r" % (shape, e)})
+                return self.result("book-raised", v5, v6, {})
+            errs = [r for r in tc.get_reports() if "ERROR" in str(r)]
+            if errs:
+                v6.append({"sig": "clean_all-swallowed-error|book", "msg": "clean_all() on the book %s reports %r" % (shape, errs[:2])})
+            for sig, msg in validate(book, final=True)[:3]:
+                v5.append({"sig": sig + "|book", "msg": "%s after the full cleaning sequence on the book %s" % (msg, shape)})
+            # differential: every article of the book as it comes out of a book of its own
+            # (an article left without content is dropped from a book unless it is the only one: compared are those with content)
+            got = [tree_hash(a) for a in book.get_all_children() if type(a).__name__ == "Article" and a.children]
+            want = []
+            for i, a in enumerate(names):
+                one = self.make_book("flat", [a])
+                one.children[0].caption = "Page %d" % i
+                self.treecleaner.TreeCleaner(one, save_reports=True).clean_all()
+                want.extend(tree_hash(x) for x in one.children if type(x).__name__ == "Article" and x.children)
+            if got != want and not v6:
+                v6.append({"sig": "book:article-cleaned-differently", "msg": "the articles of the book %s do not come out as they do from one-article books (%d of %d differ or are missing)"
+                           % (shape, sum(1 for g, w in zip(got, want) if g != w) + abs(len(got) - len(want)), len(want))})
+        return self.result(tree_hash(book), v5, v6, {"books": 1}, len(self.methods))
+
     def run_case(self, case):
+        if case[0] == "book":
+            return self.run_book(case)
         text = self.build(case)
         v5, v6 = [], []
         counters = {}
